@@ -35,6 +35,7 @@ fn main() {
         "fault-child" => engines::fault::child(&args),
         "live" => engines::live::run(&args),
         "live-child" => engines::live::child(&args),
+        "space" => engines::space::run(&args),
         "scratch" => engines::scratchpad::run(&args),
         other => {
             eprintln!("unknown engine {other}");
